@@ -14,12 +14,21 @@ from pyvc import finite
 from pyvc import libmodel as L
 from pyvc import setmode as SM
 from pyvc import values as V
-from pyvc.values import Opaque, SObj
-from .algos import ALGOS, REGION, AlgoState, same_set, set_is
+from pyvc.values import Opaque, SObj, Unsupported
+from .algos import ALGOS, REGION, AlgoState, same_set, set_is, _nocapture
 
 I = z3.IntSort()
 q = z3.Int("q!w")
 s_ = z3.Int("s!w")
+xc = z3.Int("x!c")  # quantified variable of the one-directional clauses (distinct from the bound variables of cert / P1 / held)
+
+
+def _mono(t, A, paths):
+    """Monotonicity facts consumed by the step composition (C06) and the run-level lemma (C01)."""
+    t.prove_paths("mono/S_only_shrinks", paths, lambda p: z3.ForAll([xc], z3.Implies(z3.Select(A.final(p)[0], xc), z3.Select(A.S0, xc))))
+    t.prove_paths("mono/P_only_grows", paths, lambda p: z3.ForAll([xc], z3.Implies(z3.Select(A.P0, xc), z3.Select(A.final(p)[1], xc))))
+    t.prove_paths("mono/S_and_P_stay_disjoint", paths, lambda p: z3.ForAll([xc], z3.Not(z3.And(z3.Select(A.final(p)[0], xc), z3.Select(A.final(p)[1], xc)))))
+    t.prove_paths("mono/a_design_enters_P_only_from_S", paths, lambda p: z3.ForAll([xc], z3.Implies(z3.Select(A.final(p)[1], xc), z3.Or(z3.Select(A.P0, xc), z3.Select(A.S0, xc)))))
 
 
 class RowMap:
@@ -118,24 +127,91 @@ def auer_replay(t, A, method, expS, expP):
     return builder
 
 
+def auer_unrolled(t, A, method, clause, expS, expP, N=3):
+    """Bounded structural cross-check / fall-back for Auer (cf. algos.unrolled_transition): the real method runs without loop
+    summaries on every S/P configuration of N designs, beta_t being the (|S|, m) array of the designs' own displayed
+    half-widths in S's (sorted) iteration order; centres and widths stay symbolic."""
+    import itertools
+    from pyvc.libcalls import ConcSet
+    from pyvc.symexec import find_obj
+    from .algos import RegionList, I as INT
+    m = A.m
+    dom = list(range(-1, N + 1))
+
+    def arr_of(members):
+        a = z3.K(INT, z3.BoolVal(False))
+        for k in members:
+            a = z3.Store(a, z3.IntVal(k), z3.BoolVal(True))
+        return a
+    goals = []
+    n_cfg = 0
+    for lab in itertools.product("SPN", repeat=N):
+        S0c = [k for k in range(N) if lab[k] == "S"]
+        P0c = [k for k in range(N) if lab[k] == "P"]
+        n_cfg += 1
+        sub = [(A.S0, arr_of(S0c)), (A.P0, arr_of(P0c)), (A.N, z3.IntVal(N))]
+        fields = dict(A.fields0)
+        fields["S"], fields["P"] = ConcSet(S0c), ConcSet(P0c)
+        fields["beta_t"] = L.mk([A.WID[k](A.reg(z3.IntVal(s))) for s in S0c for k in range(m)], (len(S0c), m), "f")
+        fields["design_space"] = SObj("DesignSpaceStub", {"confidence_regions": RegionList(A.REG0, z3.IntVal(N), attrs=lambda term: {"center": L.mk([f(term) for f in A.CEN], (m,), "f")}),
+                                                          "cardinality": N}, tag="ds")
+        obj = SObj(A.obj.cls, fields, tag="self")
+        saved = list(t.pre)
+        rr = z3.Const("r!q", REGION)
+        t.pre = [A.eps >= 0, z3.ForAll([rr], z3.And(*[w(rr) >= 0 for w in A.WID]))]
+        try:
+            paths = t.run(ALGOS["Auer"], "Auer." + method, [], self_val=obj, setmode=False)
+        finally:
+            t.pre = saved
+        for p in paths:
+            if p.kind != "return":
+                goals.append(z3.Implies(p.cond(), z3.BoolVal(False)))
+                continue
+            o = find_obj(p.st, obj.oid)
+            cs = []
+            for key, exp in (("S", expS), ("P", expP)):
+                got = set(o.fields[key].vals) if isinstance(o.fields[key], ConcSet) else None
+                for k in range(N):
+                    want = finite.expand(z3.substitute(exp(z3.IntVal(k)), *sub), dom)
+                    cs.append((z3.BoolVal(k in got) == want) if got is not None else z3.BoolVal(False))
+            goals.append(z3.Implies(z3.And(A.eps >= 0, *[A.WID[k](A.reg(z3.IntVal(i))) >= 0 for i in range(N) for k in range(m)], p.cond()), z3.And(*cs)))
+    t.trusted.add("bounded cross-check: N = %d designs, all %d S/P configurations, centres and widths symbolic" % (N, n_cfg))
+    t.prove("%s[bounded: every configuration of %d designs, no loop summaries]" % (clause, N), z3.And(*goals), use_pre=False, kind="bounded",
+            timeout_ms=max(t.timeout_ms, 120000))
+
+
 def _auer_discarding(m):
     @task("C02", "Auer.discarding[m=%d]" % m)
     def _t(t):
         t.mode = "set-level S, P; objectives unrolled m=%d; centres and widths arbitrary reals" % m
         A = auer_state(t, m)
-        paths = t.run(ALGOS["Auer"], "Auer.discarding", [], self_val=A.obj, setmode=True)
+        cert0 = lambda p: z3.Exists([q], z3.And(z3.Select(A.S0, q), q != p, z3.And(*[small_m(A, p, q) > wsum(A, p, q, k) for k in range(m)])))
+        bounded = lambda: auer_unrolled(t, A, "discarding", "exactly_designs_beaten_by_more_than_both_own_widths_in_every_objective_leave",
+                                        lambda e: z3.And(z3.Select(A.S0, e), z3.Not(cert0(e))), lambda e: z3.Select(A.P0, e))
+        try:
+            paths = t.run(ALGOS["Auer"], "Auer.discarding", [], self_val=A.obj, setmode=True)
+        except Unsupported:
+            bounded()
+            raise
         t.must_fail()
         t.no_raise(paths)
-        cert = lambda p: z3.Exists([q], z3.And(z3.Select(A.S0, q), q != p,
-                                               z3.And(*[small_m(A, p, q) > wsum(A, p, q, k) for k in range(m)])))
+        cert = _nocapture(lambda p: z3.Exists([q], z3.And(z3.Select(A.S0, q), q != p,
+                                                          z3.And(*[small_m(A, p, q) > wsum(A, p, q, k) for k in range(m)]))))
         expS = lambda e: z3.And(z3.Select(A.S0, e), z3.Not(cert(e)))
         expP = lambda e: z3.Select(A.P0, e)
         t.finite = {"N": A.N, "replay": auer_replay(t, A, "discarding", expS, expP)}
         t.prove_paths("exactly_designs_beaten_by_more_than_both_own_widths_in_every_objective_leave/S'", paths,
                       lambda p: set_is(A.final(p)[0], expS))
         t.prove_paths("frame:P_unchanged", paths, lambda p: same_set(A.final(p)[1], A.P0))
+        # the soundness direction consumed by the C01 lemma (a more conservative rule keeps it)
+        t.prove_paths("safe/a_design_leaves_S_only_when_another_candidate_beats_it_by_more_than_both_own_widths_in_every_objective", paths,
+                      lambda p: z3.ForAll([xc], z3.Implies(z3.And(z3.Select(A.S0, xc), z3.Not(z3.Select(A.final(p)[0], xc))), cert(xc))))
+        t.prove_paths("safe/P_untouched", paths, lambda p: same_set(A.final(p)[1], A.P0))
+        _mono(t, A, paths)
         t.finite = None
         t.implicit()
+        if t.tier == "thorough":
+            bounded()
     return _t
 
 
@@ -144,7 +220,18 @@ def _auer_pareto(m):
     def _t(t):
         t.mode = "set-level S, P; objectives unrolled m=%d; centres and widths arbitrary reals" % m
         A = auer_state(t, m)
-        paths = t.run(ALGOS["Auer"], "Auer.pareto_updating", [], self_val=A.obj, setmode=True)
+
+        def bounded():
+            P1b = lambda p: z3.And(z3.Select(A.S0, p), z3.Not(z3.Exists([q], z3.And(z3.Select(A.S0, q), q != p, z3.And(*[big_m(A, p, q) < wsum(A, p, q, k) for k in range(m)])))))
+            heldb = lambda p: z3.Exists([s_], z3.And(z3.Select(A.S0, s_), z3.Not(P1b(s_)), z3.And(*[big_m(A, s_, p) <= wsum(A, p, s_, k) for k in range(m)])))
+            newb = lambda p: z3.And(P1b(p), z3.Not(heldb(p)))
+            auer_unrolled(t, A, "pareto_updating", "passing_designs_not_held_back_move_to_P(own widths)",
+                          lambda e: z3.And(z3.Select(A.S0, e), z3.Not(newb(e))), lambda e: z3.Or(z3.Select(A.P0, e), newb(e)))
+        try:
+            paths = t.run(ALGOS["Auer"], "Auer.pareto_updating", [], self_val=A.obj, setmode=True)
+        except Unsupported:
+            bounded()
+            raise
         t.must_fail()
         t.no_raise(paths)
         P1 = lambda p: z3.And(z3.Select(A.S0, p), z3.Not(z3.Exists([q], z3.And(
@@ -157,8 +244,15 @@ def _auer_pareto(m):
         t.finite = {"N": A.N, "replay": auer_replay(t, A, "pareto_updating", expS, expP)}
         t.prove_paths("passing_designs_not_held_back_move_to_P(own widths)/S'", paths, lambda p: set_is(A.final(p)[0], expS))
         t.prove_paths("passing_designs_not_held_back_move_to_P(own widths)/P'", paths, lambda p: set_is(A.final(p)[1], expP))
+        t.prove_paths("safe/a_design_enters_P_only_if_it_passes_against_every_candidate_and_no_non_passing_candidate_still_needs_it", paths,
+                      lambda p: z3.ForAll([xc], z3.Implies(z3.And(z3.Select(A.final(p)[1], xc), z3.Not(z3.Select(A.P0, xc))), new(xc))))
+        t.prove_paths("safe/every_candidate_stays_in_S_or_moves_to_P", paths,
+                      lambda p: z3.ForAll([xc], z3.Implies(z3.Select(A.S0, xc), z3.Or(z3.Select(A.final(p)[0], xc), z3.Select(A.final(p)[1], xc)))))
+        _mono(t, A, paths)
         t.finite = None
         t.implicit()
+        if t.tier == "thorough":
+            bounded()
     return _t
 
 
